@@ -185,3 +185,7 @@ mod tests {
         ));
     }
 }
+
+#[cfg(kani)]
+#[path = "/verif/harness/common/lib.rs"]
+mod verif_harness;
